@@ -2,7 +2,8 @@
 
 stdin : {"src": <repo>/src, "argv": [...], and either
            "history": [query...], "final": [query...], "snapshot": bool                      (a history, then the query)
-         or "pool": [query...], "seq": [pool index...], "residue": bool, "share_config": bool (a walk over a pool)}
+         or "pool": [query...], "seq": [pool index...], "residue": bool, "share_config": bool (a walk over a pool)
+         or "forkpool": [query...]        (each query in its own child forked before anything was analysed)}
 stdout, history form:
         {"answers": [...for the final queries...], "loads": [[module, hit]...] per call of _load_handler,
          "loads_per_query": [n...], "cache_info": [hits, misses, maxsize, currsize], "state": {...},
@@ -10,6 +11,7 @@ stdout, history form:
 stdout, pool form:
         {"seen": {pool index: [[answer, first position, count]...]},       every distinct answer an item ever got
          "residue": [[position, pool index, [[path, before, after, detail]...]]...]   per analysis, when asked for,
+         "steps": [[[handler module asked for...], answer]...]                         per analysis, when residue is asked for,
          "shims": [labels of the functools caches found], "snap_ms": average cost of a snapshot, "state": {...}}
 Queries:
   {"k": "analyze", "command", "config", "cwd", "remote"}   analyzer.analyze -> [action, reason]
@@ -110,6 +112,32 @@ def cache_info():
     return [ci.hits, ci.misses, ci.maxsize, ci.currsize]
 
 
+if "forkpool" in job:
+    # every query in its own child forked from this process, which has imported dippy and analysed nothing
+    answers = []
+    for q in job["forkpool"]:
+        r, w = os.pipe()
+        pid = os.fork()
+        if pid == 0:
+            try:
+                os.close(r)
+                data = json.dumps(run(q)).encode()
+                os.write(w, data)
+            finally:
+                os._exit(0)
+        os.close(w)
+        buf = b""
+        while True:
+            chunk = os.read(r, 1 << 16)
+            if not chunk:
+                break
+            buf += chunk
+        os.close(r)
+        os.waitpid(pid, 0)
+        answers.append(json.loads(buf.decode()) if buf else ["?", "child failed"])
+    print(json.dumps({"answers": answers}))
+    sys.exit(0)
+
 if "pool" in job:
     pool = job["pool"]
     seen = {}
@@ -122,8 +150,12 @@ if "pool" in job:
                 if "config" in q:
                     cfg(q["config"])
         prev = st.snapshot(roots())
+    steps = []
     for pos, idx in enumerate(job["seq"]):
+        n0 = len(st.CALLS)
         a = run(pool[idx])
+        if prev is not None:
+            steps.append([[c[1] for c in st.CALLS[n0:] if c[0] == LOADER], a])
         key = json.dumps(a, sort_keys=True)
         e = seen.setdefault(idx, {})
         if key in e:
@@ -139,11 +171,15 @@ if "pool" in job:
             if d:
                 residue.append([pos, idx, d[:40]])
             prev = cur
-    print(json.dumps({"seen": {str(i): list(e.values()) for i, e in seen.items()}, "residue": residue, "shims": shims,
+    print(json.dumps({"seen": {str(i): list(e.values()) for i, e in seen.items()}, "residue": residue, "steps": steps, "shims": shims,
                       "snap_ms": round(1000 * snap_s / snaps, 2) if snaps else None, "state": state(),
                       "cache_info": cache_info(), "paths": len(prev.fp) if prev is not None else None}))
     sys.exit(0)
 
+if share_config:
+    for q in job["history"] + job["final"]:     # the shared objects exist before the first snapshot
+        if "config" in q:
+            cfg(q["config"])
 before = st.snapshot(roots()) if job.get("snapshot") else None
 per_query = []
 for q in job["history"]:
